@@ -42,8 +42,12 @@ Op == /\ Ev.t = "op" /\ UNCHANGED seq
 Evict == /\ Ev.t = "evict" /\ UNCHANGED <<seq, adm>>
          /\ IF Ev.ret # "ok" THEN Fail("the eviction routine did not return on member " \o ToString(Ev.m) \o " (" \o Ev.phase \o ")") ELSE Ok
 Forget == Ev.t = "forget" /\ adm' = Set(adm, Ev.k, Star) /\ UNCHANGED seq /\ Ok
+\* reads issued after a member was lost in the middle of a hand-over and before the cluster has stabilised again are
+\* recorded only: the statements promise the values "once the cluster has (re-)stabilised"
+Settled == IF "settled" \in DOMAIN Ev THEN Ev.settled ELSE TRUE
 Read == /\ Ev.t = "read" /\ UNCHANGED <<seq, adm>>
-        /\ IF Ev.ret \notin {"val", "notfound"} THEN Fail("read of " \o Ev.k \o " failed: " \o Ev.ret \o " (" \o Ev.phase \o ")")
+        /\ IF ~Settled THEN Ok
+           ELSE IF Ev.ret \notin {"val", "notfound"} THEN Fail("read of " \o Ev.k \o " failed: " \o Ev.ret \o " (" \o Ev.phase \o ")")
            ELSE IF ~Admissible(Ev.k, Ev.v) THEN
                   Fail((IF Ev.v = "nil" THEN "an acknowledged write was lost" ELSE IF "nil" \in Adm(Ev.k) THEN "a deleted key came back" ELSE "a read returned an old value")
                        \o " (" \o Ev.phase \o ")")
